@@ -31,6 +31,16 @@ impl Tier {
     }
 }
 
+/// "Lite" pass: the same check in the plain release profile (no overflow checks, no debug
+/// assertions - what users ship), over a reduced space: string trees one symbol shorter, code
+/// point sweeps restricted to U+0000..U+30FF, U+F900..U+10FFF and every 61st code point.
+/// Its only job is to expose behaviour that differs between build profiles.
+pub static LITE: std::sync::atomic::AtomicBool = std::sync::atomic::AtomicBool::new(false);
+
+pub fn lite() -> bool {
+    LITE.load(std::sync::atomic::Ordering::Relaxed)
+}
+
 /// where evidence/ and replays/ are written: /verif, or VERIF_OUT_DIR for
 /// trial runs against seeded defects (so committed evidence is never clobbered)
 pub fn out_dir() -> PathBuf {
@@ -249,6 +259,7 @@ pub fn strtree<F>(alpha: &[char], max_len: usize, f: F) -> Stats
 where
     F: Fn(&[char], &str, &mut Stats) + Sync,
 {
+    let max_len = if lite() { max_len.saturating_sub(1).max(2) } else { max_len };
     let mut total = Stats::default();
     // root
     total.states += 1;
@@ -456,6 +467,9 @@ where
         .map(|&base| {
             let mut st = Stats::default();
             for cp in base..base + 0x400 {
+                if lite() && !(cp < 0x3100 || (0xF900..0x11000).contains(&cp) || cp % 61 == 0) {
+                    continue;
+                }
                 if let Some(c) = char::from_u32(cp) {
                     st.states += 1;
                     st.transitions += 1;
@@ -493,6 +507,9 @@ where
         .map(|&(a, b)| {
             let mut st = Stats::default();
             for v in a..=b {
+                if lite() && !(v < 0x3100 || (0xF900..0x11000).contains(&v) || v % 61 == 0) {
+                    continue;
+                }
                 st.states += 1;
                 st.transitions += 1;
                 f(v as u32, &mut st);
@@ -663,6 +680,7 @@ fn write_replay(run: &Run, v: &Violation, n: usize) -> PathBuf {
         "actual": v.actual,
         "replay_cmd": format!("./check {} --replay <this file>", run.prop),
         "unit_test": unit_test_for(v),
+        "build_profile": if lite() { "userrel" } else { "release-with-checks" },
     });
     let text = serde_json::to_string_pretty(&body).unwrap();
     // name by content hash (FNV) so the same case maps to the same file
@@ -786,10 +804,13 @@ where
     let evdir = out_dir().join("evidence");
     let _ = fs::create_dir_all(&evdir);
     let evp = evdir.join(format!("{}.json", run.prop));
-    if machinery_error.is_none() {
+    if machinery_error.is_none() && !lite() {
         if let Err(e) = fs::write(&evp, serde_json::to_string_pretty(&ev).unwrap()) {
             machinery_error = Some(format!("cannot write evidence: {}", e));
         }
+    }
+    if lite() {
+        println!("-- plain release profile (no overflow checks / debug assertions), reduced space --");
     }
     println!(
         "{} tier={} states={} transitions={} evaluations={} validated={} nontrivial={} outcomes={} wall={:.1}s",
